@@ -363,14 +363,14 @@ def _delta(case, tier):
     for count in counts:
         vals = delta_values(width, count, is64, case.get("step", 0))
         info = {}
-        try:
-            body = enc.encode_delta(vals, block_size=block, miniblocks=minis, is64=is64, info=info)
-        except TypeError:
-            body = enc.encode_delta(vals, block_size=block, miniblocks=minis, is64=is64)
+        # miniblocks that hold no value carry an arbitrary width byte in every other stream
+        unused = (13 if (count + width) % 2 else 0)
+        body = enc.encode_delta(vals, block_size=block, miniblocks=minis, is64=is64, info=info, unused_width=unused)
         spec, _ = enc.decode_delta(body, 0, is64)
         if list(spec)[:count] != vals:
             raise AssertionError("oracle delta round trip failed")
-        raw = np.frombuffer(bytes(body) + b"\x00" * 16, dtype=np.uint8).copy()
+        # the input ends where the stream ends: a decoder reading on is seen by the sanitised run (C12)
+        raw = np.frombuffer(bytes(body), dtype=np.uint8).copy()
         arr = np.full((count + 8) * item, GUARD, dtype=np.uint8)
         o = ce.NumpyIO(arr[: count * item])
         ctx = "delta_binary_unpack(%s, miniblock width %d, block %d/%d, count=%d, min delta %d)" % (
